@@ -129,7 +129,8 @@ class EnvSim(Engine):
     nruns = {"quick": 5000, "thorough": 400000}
     budgets = {"quick": 45.0, "thorough": 540.0}
     rule = (
-        "script = contingent problem (3-6 hidden Boolean ground fluents under unknown / oneof / or constraints, some with a default or "
+        "script = contingent problem (optionally an earlier capped environment on the same problem; optionally a user function of a "
+        "parameter in preconditions that raises inside 1-3 steps; 3-6 hidden Boolean ground fluents under unknown / oneof / or constraints, some with a default or "
         "an explicit value the drawn state must override; refused re-declarations of fluents with other defaults; "
         "non-hidden Boolean, bounded-int and object-valued fluents whose initial value is explicit, a per-fluent default "
         "or a per-type default; sensing actions observing 1-2 fluents; ordinary actions with conditional effects on "
